@@ -156,7 +156,7 @@ func c05Gen(tier string, seed int64) []core.Case {
 			k++
 		}
 		if sc.proto == "ecdsa-keygen" || sc.proto == "ecdsa-resharing" {
-			for wi, weak := range []string{"dup-of-peer", "h1=h2", "small-paillier", "small-ntilde"} {
+			for wi, weak := range []string{"dup-of-peer", "crossed-dup-of-peer", "h1=h2", "small-paillier", "small-ntilde"} {
 				pos := poss[(k+wi)%3]
 				p := sc.P()
 				p["fpos"], p["weak"] = pos, weak
@@ -501,6 +501,11 @@ func c05Oracle(r *core.Result, fr *faultRun, f faultSpec) {
 			r.Count("erasures_observed", 1)
 		}
 	}
+	if f.How == "weak-params" && strings.Contains(f.Field, "dup-of-peer") && errCount == 0 {
+		// ring-Pedersen parameters and their DLN proofs carry no session or prover identity: the uniqueness check is all
+		// that stops a participant from presenting another participant's proofs as its own
+		r.Fail("unnoticed:weak-params:"+f.Field+":"+s.Proto, "%s presented another participant's ring-Pedersen parameters and DLN proofs (%s) as its own and no honest party reported an error", D.Name, f.Field)
+	}
 	if f.How == "weak-params" {
 		if errCount > 0 {
 			r.AddSet("weak_params_rejected", s.Proto+":"+f.Field)
@@ -526,6 +531,13 @@ func weakPreParams(kind string, base, peer ecdsakeygen.LocalPreParams) (ecdsakey
 	switch kind {
 	case "dup-of-peer":
 		return peer, nil
+	case "crossed-dup-of-peer":
+		// the peer's ring-Pedersen parameters with the roles of h1 and h2 exchanged (and the two discrete logs with them):
+		// both DLN proofs are then valid statements about values the peer already uses
+		cp.NTildei, cp.P, cp.Q = peer.NTildei, peer.P, peer.Q
+		cp.H1i, cp.H2i = peer.H2i, peer.H1i
+		cp.Alpha, cp.Beta = peer.Beta, peer.Alpha
+		return cp, nil
 	case "h1=h2":
 		cp.H2i = new(big.Int).Set(cp.H1i)
 		cp.Alpha, cp.Beta = big.NewInt(1), big.NewInt(1)
